@@ -344,6 +344,19 @@ func (p *Prop[C]) Replay(t *testing.T) {
 		files, _ = filepath.Glob(filepath.Join(VerifDir(), "replay", p.ID, "*.json"))
 		sort.Strings(files)
 	}
+	if os.Getenv("VERIF_NO_REPLAY") != "" && os.Getenv("VERIF_REPLAY") == "" {
+		// sensitivity runs: only the listed known findings are replayed, so that the random search alone must find a reintroduced defect
+		var keep []string
+		for _, f := range files {
+			rel, _ := filepath.Rel(VerifDir(), f)
+			for _, k := range known {
+				if k.Replay == rel {
+					keep = append(keep, f)
+				}
+			}
+		}
+		files = keep
+	}
 	if p.Filter != nil {
 		var keep []string
 		for _, f := range files {
